@@ -97,8 +97,10 @@ def run (op impl : String) : Ans :=
         let r : Req := { host, path, method, query, headers, cookies, tags, cip, vip, uri, proto,
                          secure := f 17 == "1", sesProto, tls, sip, hostTag, trusted := f 22 == "1", resp, ctx, cipStr }
         let fold := f 4 == "1"
-        let m := matchPrim o prim a0 a1 fold r
-        let s := specPrim o prim a0 a1 fold r
+        -- a literal with a NUL byte or invalid UTF-8 is a scanner error of Build (C17), whatever the primitive
+        let srcErr := a0.contains 0 || a1.contains 0 || !(BfeVerif.C17.validUtf8 a0.length a0) || !(BfeVerif.C17.validUtf8 a1.length a1)
+        let m := if srcErr then none else matchPrim o prim a0 a1 fold r
+        let s := if srcErr then none else specPrim o prim a0 a1 fold r
         let absent :=
           if prim.startsWith "req_header_value" then (assoc (canonKey a0) headers).isNone
           else if prim.startsWith "req_query_value" then (assoc a0 query).isNone
